@@ -53,6 +53,20 @@ def validate_evidence(path):
     return "validated (builtin)"
 
 
+def load_corpus_dir(pid):
+    """directed plans kept as files: corpus/<id>/*.json ({"plan": ...} or a bare plan), e.g. minimised
+    replays of past false alarms and of fixed defects"""
+    d = os.path.join(VERIF, "corpus", pid)
+    out = []
+    if os.path.isdir(d):
+        for f in sorted(os.listdir(d)):
+            if f.endswith(".json"):
+                with open(os.path.join(d, f)) as fh:
+                    doc = json.load(fh)
+                out.append(("file:" + f[:-5], doc.get("plan", doc)))
+    return out
+
+
 def replay_path(pid, verif_seed, res):
     name = res.get("name") or ("run%s" % res.get("i"))
     return os.path.join(VERIF, "replays", "%s-%s-%s.json" % (pid, verif_seed, name))
@@ -101,7 +115,8 @@ def check(pid, tier, verif_seed, repo, nlanes, replay=None, runs=None, wall_cap=
         return 0
 
     jobs = []
-    for name, plan in prop.corpus():
+    corpus_plans = list(prop.corpus()) + load_corpus_dir(pid)
+    for name, plan in corpus_plans:
         jobs.append({"tag": "corpus", "name": name, "plan": plan})
     ncorpus = len(jobs)
     nruns = cfg["runs"]
@@ -191,7 +206,7 @@ def check(pid, tier, verif_seed, repo, nlanes, replay=None, runs=None, wall_cap=
         v = violations[0]
         # regenerate the plan
         if v.get("tag") == "corpus":
-            plan = dict(prop.corpus())[v["name"]]
+            plan = dict(corpus_plans)[v["name"]]
         else:
             plan = prop.gen_plan(Streams(prop.ID, verif_seed, v["i"]), tier)
         mplan, mres, nexec = plan, v, 0
